@@ -1260,3 +1260,27 @@ Proof.
     vm_compute. repeat first [left; reflexivity | right].
   - cbn [lint_skip_empty snd]. intros H. exact H.
 Qed.
+
+(* ------------------------------------------------------------------------------------------ *)
+(* closing names (`end record t`, `end protected t`, `end function f` ...) are not references    *)
+(* ------------------------------------------------------------------------------------------ *)
+Definition with_self_reference (g : group) (d : ent) : group :=
+  {| primary := primary g; secondaries := secondaries g ++ [[EvRef (Some d)]] |}.
+
+Lemma self_reference_hides : forall g d,
+  ~ In d (find_unused_declarations (with_self_reference g d)).
+Proof.
+  intros g d. apply (pair_rule (with_self_reference g d) d d); [|reflexivity].
+  unfold referenced_in, group_events, with_self_reference. cbn [primary secondaries].
+  apply in_or_app. right. rewrite concat_app. apply in_or_app. right.
+  cbn. left. reflexivity.
+Qed.
+
+Lemma closing_name_as_reference_refuted :
+  exists g d, In d (find_unused_declarations g)
+              /\ ~ In d (find_unused_declarations (with_self_reference g d)).
+Proof.
+  exists example_group, ex_t. split.
+  - vm_compute. repeat first [left; reflexivity | right].
+  - apply self_reference_hides.
+Qed.
